@@ -32,5 +32,9 @@ PROPS["C15"] = {"units": ["context", "main", "generate"], "level": "proof", "ass
 PROPS["C16"] = {"units": ["context", "main", "generate"], "level": "proof", "assumptions": []}
 for _p in ("C04", "C15", "C16", "C17", "C18"):
     PROPS[_p]["units"] = PROPS[_p]["units"] + ["finder"]
+for _p in ("C03", "C17"):
+    PROPS[_p]["units"] = PROPS[_p]["units"] + ["find"]
+PROPS["C11"] = {"units": ["find"], "level": "proof", "assumptions": []}
+NOT_APPLICABLE.pop("C11", None)
 for _k in ("C15", "C16"):
     NOT_APPLICABLE.pop(_k, None)
